@@ -133,6 +133,8 @@ class YosysStructuralTranslatorL4(
     }
 
   def rtlir_tr_subcomp_decl( s, m, c_id, c_rtype, c_array_type, port_conns, ifc_conns ):
+    # The name of the sub-component becomes the name of the instance(s)
+    s.check_decl( c_id, f"Note: sub-component {c_id} of {m}" )
 
     def _subcomp_port_gen( c_name, c_id, n_dim, port_decls ):
       p_wire_tplt = "logic {packed_type: <8} {id_};"
